@@ -199,9 +199,9 @@ theorem refuse_path (cfg : Cfg) (k : Kernel) (p : Packet)
   unfold Kernel.emitRst Kernel.emit
   simp
 
-theorem refused_after_rst (k : Kernel) (fd : Nat) (s : Socket) (t : Tcb) (peer : SockAddr)
+theorem refused_after_rst (cfg : Cfg) (k : Kernel) (fd : Nat) (s : Socket) (t : Tcb) (peer : SockAddr)
     (hs : k.getSock fd = some s) (hto : t.timedOut = false) :
-    ((k.setSock fd { s with tcb := some (t.abort true) }).pollConnect fd peer).2 = .err .refused := by
+    ((k.setSock fd { s with tcb := some (t.abort true) }).pollConnect cfg fd peer).2 = .err .refused := by
   unfold Kernel.pollConnect
   rw [Kernel.getSock_setSock_self k fd _ (by rw [hs]; rfl)]
   simp [Tcb.abort, hto]
@@ -209,12 +209,12 @@ theorem refused_after_rst (k : Kernel) (fd : Nat) (s : Socket) (t : Tcb) (peer :
 /-- Backlog: a SYN that reaches a listener creates a half-open child (and a SYN-ACK goes out)
     exactly when half-open children of that local address plus the accept queue are below the
     backlog; otherwise the SYN is dropped without any trace (the client retransmits). -/
-theorem syn_admitted_iff_room (k : Kernel) (lfd : Nat) (l r : SockAddr) (s : Seg) (ls : Socket) (li : Listen)
+theorem syn_admitted_iff_room (cfg : Cfg) (k : Kernel) (lfd : Nat) (l r : SockAddr) (s : Seg) (ls : Socket) (li : Listen)
     (hs : k.getSock lfd = some ls) (hl : ls.listen = some li) :
-    (k.countChildren lfd l + li.ready.length ≥ li.backlog → k.acceptSyn lfd l r s = k) ∧
+    (k.countChildren lfd l + li.ready.length ≥ li.backlog → k.acceptSyn cfg lfd l r s = k) ∧
     (k.countChildren lfd l + li.ready.length < li.backlog →
-      (k.acceptSyn lfd l r s).nextId = k.nextId + 1 ∧
-      ∃ p, (k.acceptSyn lfd l r s).outbound = k.outbound ++ [p] ∧ p.seg.flags.syn = true ∧ p.seg.flags.ack = true ∧
+      (k.acceptSyn cfg lfd l r s).nextId = k.nextId + 1 ∧
+      ∃ p, (k.acceptSyn cfg lfd l r s).outbound = k.outbound ++ [p] ∧ p.seg.flags.syn = true ∧ p.seg.flags.ack = true ∧
         p.seg.ack = wadd s.seq 1 ∧ p.dst = r.ip ∧ p.seg.dstPort = r.port) := by
   constructor
   · intro hfull
@@ -240,7 +240,7 @@ theorem syn_admitted_iff_room (k : Kernel) (lfd : Nat) (l r : SockAddr) (s : Seg
                 seg := { srcPort := l.port, dstPort := r.port,
                          seq := (((k.insertSock { dgram := ls.dgram, v6 := ls.v6 }).1.insertBinding ⟨false, l.ip, l.port⟩
                                   (k.insertSock { dgram := ls.dgram, v6 := ls.v6 }).2).initialSequence).2,
-                         ack := wadd s.seq 1, flags := { syn := true, ack := true }, window := defaultWindow,
+                         ack := wadd s.seq 1, flags := { syn := true, ack := true }, window := synWindow cfg,
                          payload := [] } }, ?_, ?_, ?_, ?_, ?_, ?_⟩
       · show (Kernel.insertConnection _ l r _).outbound ++ _ = k.outbound ++ _
         rw [(e1 _ _ _ _).2]
@@ -254,7 +254,7 @@ theorem syn_admitted_iff_room (k : Kernel) (lfd : Nat) (l r : SockAddr) (s : Seg
 theorem synack_establishes (cfg : Cfg) (k : Kernel) (fd : Nat) (so : Socket) (t : Tcb) (l r peer : SockAddr) (s : Seg)
     (hs : k.getSock fd = some so) (ht : so.tcb = some t) (hst : t.state = .synSent)
     (hrst : s.flags.rst = false) (hsyn : s.flags.syn = true) (hack : s.flags.ack = true) :
-    ((Kernel.handleOnConnection cfg k fd l r s).pollConnect fd peer).2 = .ok () := by
+    ((Kernel.handleOnConnection cfg k fd l r s).pollConnect cfg fd peer).2 = .ok () := by
   unfold Kernel.handleOnConnection
   simp only [hrst, Bool.false_eq_true, if_false, hs, ht, hst, hsyn, hack, Bool.and_self, if_true]
   unfold Kernel.pollConnect
